@@ -90,12 +90,8 @@ func (w *fsWriter) Write(p []byte) (n int, err error) {
 		if written == len(p) {
 			return len(p), nil
 		}
-		// Copy p to w.buf
-		writable := len(w.buf) - w.offset
-		if len(p) < writable {
-			writable = len(p)
-		}
-		c := copy(w.buf[w.offset:], p[written:writable])
+		// Copy p to w.buf: as much of the remaining input as the leaf buffer can hold
+		c := copy(w.buf[w.offset:], p[written:])
 		w.offset += c
 		written += c
 		verifhook.Emit("cafs.write.iter", c, w.offset, len(w.buf), written, len(p))
